@@ -40,6 +40,9 @@ func cloneRequest(req *http.Request) *http.Request {
 	req2 := new(http.Request)
 	*req2 = *req
 	req2.Header = req.Header.Clone()
+	if req2.Header == nil {
+		req2.Header = make(http.Header) // a request built by hand may have no header map at all
+	}
 	return req2
 }
 
